@@ -292,8 +292,107 @@ def schema_memo_not_inherited(ctx):
         raise AnalysisError('get_schema call sites: %d found' % n)
 
 
+def conversions_contained(ctx):
+    """Values of a definition are converted / searched where a failure of
+    the conversion becomes a definition error: the version number
+    (`float()` raises ValueError, TypeError and - for a huge integer -
+    OverflowError) and its canonical form (callers compare the result with
+    the string V2_0; the schema also admits the YAML number 2.0), the text
+    search for a workbook section (`str.index` raises ValueError when the
+    key is quoted / in flow style), the names of the members of a workflow /
+    action list (YAML keys need not be strings; the name goes into a model
+    whose validator does `" " in name`)."""
+    prog = ctx.prog
+    r = ctx.rule('R12', 'conversions of definition values fail as '
+                 'definition errors (version number, section search, '
+                 'member names)', 'GD (handlers)')
+    gv = prog.func('mistral.lang.parser._get_spec_version')
+    fl = [c for c in own_nodes(gv.node) if isinstance(c, ast.Call) and
+          isinstance(c.func, ast.Name) and c.func.id == 'float']
+    if len(fl) != 1:
+        raise AnalysisError('_get_spec_version: float() conversion not found')
+    covered = set()
+    for t in own_nodes(gv.node):
+        if isinstance(t, ast.Try) and any(y is fl[0] for b in t.body
+                                          for y in ast.walk(b)):
+            for h in t.handlers:
+                leaves = any(isinstance(y, ast.Raise) or (
+                    isinstance(y, ast.Call) and U.call_name(y) == '_raise')
+                    for s_ in h.body for y in ast.walk(s_))
+                if leaves:
+                    covered |= {z.split('.')[-1]
+                                for z in U.handler_types(h)}
+    need = {'ValueError', 'TypeError', 'OverflowError'}
+    okh = need <= covered or bool({'Exception', 'ArithmeticError'} & covered
+                                  and {'ValueError', 'TypeError'} <= covered
+                                  ) or 'Exception' in covered
+    r.check(okh, ctx.construct(gv, extra='float() failures become a '
+                               'definition error'),
+            'float(version) can raise %s outside a handler that turns it '
+            'into a definition error' % sorted(need - covered), ctx.loc(gv))
+    cfg = ctx.cfg(gv)
+    canon = [x.targets[0].id for x in own_nodes(gv.node)
+             if isinstance(x, ast.Assign) and
+             isinstance(x.targets[0], ast.Name) and
+             any(y is fl[0] for y in ast.walk(x.value)) and
+             isinstance(x.value, ast.Call) and U.call_name(x.value) == 'str']
+    rets = [x for x in own_nodes(gv.node) if isinstance(x, ast.Return)
+            and cfg.stmt_node(x) is not None]
+    r.check(bool(canon) and bool(rets) and all(
+        isinstance(x.value, ast.Name) and x.value.id == canon[0]
+        for x in rets),
+        ctx.construct(gv, extra='canonical version returned'),
+        'the version handed to the callers (who compare it with the string '
+        'V2_0) is not the canonical string that was checked against '
+        'ALL_VERSIONS: `version: 2.0` (a YAML number the schema admits) '
+        'selects no spec class and the caller gets None', ctx.loc(gv))
+    pw = prog.func('mistral.lang.parser._parse_def_from_wb')
+    pcfg = ctx.cfg(pw)
+    n_idx = 0
+    for n, c in pcfg.calls(lambda c: isinstance(c.func, ast.Attribute) and
+                           c.func.attr == 'index' and len(c.args) == 1):
+        recv, needle = c.func.value, c.args[0]
+        if not (isinstance(recv, ast.Name) and recv.id in pw.params and
+                isinstance(needle, ast.Name) and needle.id in pw.params):
+            continue
+        n_idx += 1
+        guarded = bool(U.guard_match(
+            pcfg, n, '%s in %s' % (needle.id, recv.id), True))
+        handled = any(
+            any(z.split('.')[-1] in ('ValueError', 'Exception')
+                for z in U.handler_types(h)) and
+            any(isinstance(y, ast.Raise) for s_ in h.body
+                for y in ast.walk(s_))
+            for t in pcfg.enclosing_trys(n) for h in t.handlers)
+        r.check(guarded or handled,
+                ctx.construct(pw, c, extra='section present'),
+                'the workbook text is searched for %s with str.index '
+                'without a preceding containment test / ValueError '
+                'handler: a quoted or flow-style section key is an '
+                'internal error' % needle.id, ctx.loc(pw, c))
+    if not n_idx and not any(
+            isinstance(c.func, ast.Attribute) and c.func.attr == 'find'
+            for _n, c in pcfg.calls(lambda c: True)):
+        raise AnalysisError('_parse_def_from_wb: section search not found')
+    vs = prog.func('mistral.lang.base.BaseListSpec.validate_schema')
+    vcfg = ctx.cfg(vs)
+    okn = False
+    for x in vcfg.nodes:
+        if x.kind == 'stmt' and isinstance(x.ast, ast.Raise) and \
+                U.guard_match(vcfg, x, 'isinstance(__k, str)', False):
+            lp = [l for l in own_nodes(vs.node) if isinstance(l, ast.For)
+                  and any(y is x.ast for y in ast.walk(l))]
+            okn = bool(lp) and norm(lp[0].iter) in (
+                'self._data', 'self._data.keys()')
+    r.check(okn, ctx.construct(vs, extra='member names are strings'),
+            'the names of the members of a workflow / action list are not '
+            'checked to be strings: `1: {tasks: ...}` passes validation and '
+            'fails with TypeError in the model validator', ctx.loc(vs))
+
+
 def run(ctx):
     schema_memo_not_inherited(ctx)
+    conversions_contained(ctx)
     prog = ctx.prog
 
     # ---- R1 hardened loader ------------------------------------------------
